@@ -24,17 +24,25 @@ class CpuBudget(BaseException):
 LAST_PROF_AT = None
 
 
+def _where(fn: str) -> str | None:
+    """File-level location of a frame that belongs to the code under test (repository or a third-party dependency)."""
+    if "/vlib/" in fn or "/checks/" in fn or fn.startswith("<"):
+        return None
+    if "/site-packages/" in fn:
+        return "/".join(fn.split("/site-packages/", 1)[1].split("/")[:2])
+    if "/sharepoint2text/" in fn:
+        return "/".join(fn.split("/")[-2:])
+    return None     # standard library frames (logging, re, struct ...) are skipped: they run on behalf of a caller further out
+
+
 def _on_prof(signum, frame):
-    # remember where the CPU budget ran out: innermost frame outside the harness (module path tail + function)
+    # remember where the CPU budget ran out: innermost frame of the code under test, at file granularity
     global LAST_PROF_AT
     f = frame
     where = None
     while f is not None:
-        fn = f.f_code.co_filename
-        if "/vlib/" not in fn and "/checks/" not in fn and not fn.startswith("<"):
-            parts = fn.replace("\\", "/").split("/")
-            tail = "/".join(parts[-2:])
-            where = f"{tail}:{f.f_code.co_name}"
+        where = _where(f.f_code.co_filename)
+        if where:
             break
         f = f.f_back
     LAST_PROF_AT = where
